@@ -59,7 +59,7 @@ class HistoryMonitor:
     def __init__(self, ctx, u, icls, coords, history, model=None, mkind=None):
         self.ctx, self.u = ctx, numpy.asarray(u, dtype=float)
         self.model = model
-        self.mkind = "" if not mkind or mkind.startswith("plain") else ", " + mkind   # model class as part of the input class
+        self.mkind = "" if not mkind or mkind.startswith("plain") else ", " + mkind.split(",")[0]   # model class (coarse) as part of the input class
         self.icls, self.coords, self.history = icls, coords, history
         self.gens = []
         self.env = {}        # (view, scaling) -> tightest earlier limits per trait and the generations that set them
